@@ -11,3 +11,42 @@ package simbox
 //@ func (d *DelayDistribution) GetValue() int32
 //@   assigns nothing
 //@   trusted
+
+//@ props C15
+
+//@ pred sameRulesPrefix(r *Simbox, n int) := forall p int :: 0 <= p && p < n ==> r.Rules[p] == old(r.Rules[p])
+
+// Add appends exactly one, not suspended, rule - or nothing at all.
+//@ func (r *Simbox) Add(adds string) error
+//@   requires r != nil
+//@   ensures added: result == nil ==> len(r.Rules) == old(len(r.Rules)) + 1 && !r.Rules[len(r.Rules) - 1].Suspended &&
+//@             int(r.Rules[len(r.Rules) - 1].Timec) <= 5 && int(r.Rules[len(r.Rules) - 1].Action) <= 3
+//@   ensures kept: sameRulesPrefix(r, old(len(r.Rules)))
+//@   ensures rejected: result != nil ==> len(r.Rules) == old(len(r.Rules))
+//@   assigns r.Rules, spare(r.Rules)
+
+//@ func (r *Simbox) Suspend(idx int) error
+//@   requires r != nil && 0 <= idx
+//@   ensures done: idx < old(len(r.Rules)) ==> result == nil && r.Rules[idx].Suspended &&
+//@             r.Rules[idx].Timec == old(r.Rules[idx].Timec) && r.Rules[idx].Tick == old(r.Rules[idx].Tick) && r.Rules[idx].Action == old(r.Rules[idx].Action) &&
+//@             r.Rules[idx].Object == old(r.Rules[idx].Object) && r.Rules[idx].Extra == old(r.Rules[idx].Extra)
+//@   ensures others: len(r.Rules) == old(len(r.Rules)) && (forall p int :: 0 <= p && p < len(r.Rules) && p != idx ==> r.Rules[p] == old(r.Rules[p]))
+//@   ensures rejected: idx >= old(len(r.Rules)) ==> result != nil
+//@   assigns r.Rules[idx]
+
+//@ func (r *Simbox) Reactivate(idx int) error
+//@   requires r != nil && 0 <= idx
+//@   ensures done: idx < old(len(r.Rules)) ==> result == nil && !r.Rules[idx].Suspended &&
+//@             r.Rules[idx].Timec == old(r.Rules[idx].Timec) && r.Rules[idx].Tick == old(r.Rules[idx].Tick) && r.Rules[idx].Action == old(r.Rules[idx].Action) &&
+//@             r.Rules[idx].Object == old(r.Rules[idx].Object) && r.Rules[idx].Extra == old(r.Rules[idx].Extra)
+//@   ensures others: len(r.Rules) == old(len(r.Rules)) && (forall p int :: 0 <= p && p < len(r.Rules) && p != idx ==> r.Rules[p] == old(r.Rules[p]))
+//@   ensures rejected: idx >= old(len(r.Rules)) ==> result != nil
+//@   assigns r.Rules[idx]
+
+//@ func (r *Simbox) Del(idx int) error
+//@   requires r != nil && 0 <= idx
+//@   ensures done: idx < old(len(r.Rules)) ==> result == nil && len(r.Rules) == old(len(r.Rules)) - 1 &&
+//@             (forall p int :: 0 <= p && p < idx ==> r.Rules[p] == old(r.Rules[p])) &&
+//@             (forall p int :: idx <= p && p < len(r.Rules) ==> r.Rules[p] == old(r.Rules[p + 1]))
+//@   ensures rejected: idx >= old(len(r.Rules)) ==> result != nil && len(r.Rules) == old(len(r.Rules)) && sameRulesPrefix(r, len(r.Rules))
+//@   assigns r.Rules, r.Rules[*]
